@@ -322,7 +322,7 @@ func (a *attacker) randomDyn() []byte {
 
 var c12moves = []string{"dup-registerEvent", "conflicting-unregister", "foreign-ids", "wrong-object-ids", "garbage-property", "mutated-directory-call",
 	"unknown-targets", "all-message-types", "big-payload", "flood-drain-late", "flood-abrupt-close", "cut-mid-message", "reauthenticate-racing-calls",
-	"documented-removal", "mutated-arguments", "subscribe-then-vanish", "hostile-signatures", "garbage-bytes", "stats-and-trace", "terminate-under-flood", "post-flood-subscriptions", "answers-from-a-client"}
+	"documented-removal", "mutated-arguments", "subscribe-then-vanish", "hostile-signatures", "garbage-bytes", "stats-and-trace", "terminate-under-flood", "post-flood-subscriptions", "answers-from-a-client", "pipelined-object-references"}
 
 func (a *attacker) move(name string) {
 	r := a.rng
@@ -623,6 +623,36 @@ func (a *attacker) move(name string) {
 		}
 		a.logf("Reply / Error / Event / Cancelled frames with dynamic values of every kind sent by the client")
 		a.drain(30 * time.Millisecond)
+	case "pipelined-object-references":
+		// calls whose argument is a reference to an object the client hosts itself (the server registers a
+		// forwarder for each one), pipelined in one write; replies are read
+		if a.ch.info.Desk == 0 || !a.connect() {
+			return
+		}
+		var buf bytes.Buffer
+		n := 30 + r.Intn(300)
+		emptyMeta := rc.Tup{[]rc.KV{}, []rc.KV{}, []rc.KV{}, "hosted by the client"}
+		for k := 0; k < n; k++ {
+			a.hid++
+			ref := rc.Tup{emptyMeta, a.ch.info.Desk, uint32(1<<31 | uint32(a.hid&0xffffff))}
+			act := info.Actions["desk:keep"]
+			pl := rc.Encode(rc.ObjectRefType, ref)
+			if k%9 == 8 {
+				act, pl = info.Actions["desk:relay"], workArgs(uint64(k), "x")
+			}
+			buf.Write(rc.Frame(rc.Header{Magic: rc.Magic, ID: a.conn.id(), Type: qnet.Call, Service: a.ch.info.Desk, Object: 1, Action: act}, pl))
+		}
+		conn := a.conn
+		done := make(chan struct{})
+		go func() { conn.sendBytes(buf.Bytes()); close(done) }()
+		a.drain(time.Duration(100+r.Intn(300)) * time.Millisecond)
+		select {
+		case <-done:
+		case <-time.After(2 * time.Second):
+			a.drop()
+			<-done
+		}
+		a.logf("%d pipelined keep(<reference to a client-hosted object>) / relay() calls to the Desk service", n)
 	case "stats-and-trace":
 		// the generic statistics / tracing actions of every object (80-85), then traffic that is
 		// accounted and traced: known, unknown and failing actions, and a subscription to the trace signal
@@ -786,6 +816,15 @@ func probeAll(ch *child, seqNo int, cpu0 time.Duration) probeResult {
 				return
 			}
 		}
+		if ch.info.Desk != 0 {
+			// the service that registers forwarders for client-hosted objects must still answer too
+			setStage(fmt.Sprintf("metaObject() on the Desk service %d/1", ch.info.Desk))
+			f, err := rcn.callNoDeadline(ch.info.Desk, 1, 2, u32(1), nil)
+			if err != nil || f.H.Type != qnet.Reply {
+				res <- outcome{err: fmt.Sprintf("%s: frame type %d %v", stage, f.H.Type, err)}
+				return
+			}
+		}
 		res <- outcome{}
 	}()
 	start := time.Now()
@@ -870,7 +909,7 @@ func (r *rawConn) callNoDeadline(service, obj, action uint32, payload []byte, _ 
 }
 
 func c12(c *wk.Ctx) {
-	c.Note("rule", "the server (directory + 2 Probe services x 3 objects, freshly generated stubs) runs in a child process of the worker; each case is a PRNG sequence of 2-7 moves by one authenticated hostile client from a grammar of 22 move kinds (incl. the generic statistics / tracing actions, a documented removal in the middle of a burst, a burst of one-way subscriptions and answer-type frames carrying dynamic values of every kind) (duplicate / conflicting / foreign registerEvent and unregisterEvent, wrong object ids, random dynamic values at property/setProperty, directory calls with mutated ServiceInfo, unknown actions/objects/services, all eight message types, payloads up to the limit, floods of 2-10k calls drained late or cut by an abrupt close, disconnects mid-header/mid-payload, authenticate frames racing calls, hostile length fields and signatures, the documented removals terminate()/unregisterService(), random bytes). After each sequence a fresh connection authenticates, lists the directory and calls work() on every object the sequence did not legitimately remove. Oracle: the child is alive (exit or fatal error = violation with its stderr), every probe returns f(token); a probe that does not return is decided by the child's own quiescence detector (blocked forever = violation), a CPU / memory budget read from /proc, or a watchdog (inconclusive). Race reports of the child are violations. Distinct non-trivial = distinct move sequences after which at least 4 objects were probed.")
+	c.Note("rule", "the server (directory + 2 Probe services x 3 objects + a Desk service taking object references, freshly generated stubs) runs in a child process of the worker; each case is a PRNG sequence of 2-7 moves by one authenticated hostile client from a grammar of 23 move kinds (incl. the generic statistics / tracing actions, a documented removal in the middle of a burst, a burst of one-way subscriptions answer-type frames carrying dynamic values of every kind, and pipelined calls whose arguments are references to client-hosted objects) (duplicate / conflicting / foreign registerEvent and unregisterEvent, wrong object ids, random dynamic values at property/setProperty, directory calls with mutated ServiceInfo, unknown actions/objects/services, all eight message types, payloads up to the limit, floods of 2-10k calls drained late or cut by an abrupt close, disconnects mid-header/mid-payload, authenticate frames racing calls, hostile length fields and signatures, the documented removals terminate()/unregisterService(), random bytes). After each sequence a fresh connection authenticates, lists the directory and calls work() on every object the sequence did not legitimately remove. Oracle: the child is alive (exit or fatal error = violation with its stderr), every probe returns f(token); a probe that does not return is decided by the child's own quiescence detector (blocked forever = violation), a CPU / memory budget read from /proc, or a watchdog (inconclusive). Race reports of the child are violations. Distinct non-trivial = distinct move sequences after which at least 4 objects were probed.")
 	var ch *child
 	defer func() {
 		if ch != nil {
